@@ -71,6 +71,25 @@ def c07(ctx):
              "through an integer.  And a string is cast to a number with a radix by i64::from_str_radix applied to the string itself: no "
              "part of the sign / digit syntax is handled by hand")
     float_to_int_rule(ctx, "C07.R9")
+    rep.rule("C07.R10", "a string is read as a number by `str::parse::<f64>` applied to the string itself -- everywhere in src/exec (the cast without "
+             "a radix, the string/number cell of equality and ordering): no other target type (an integer parse rejects what the float parser "
+             "accepts, and overflows) and no trimming or other preparation of the text; and the writer of a rounding statement only "
+             "dispatches on the direction -- it never assigns to the target itself (no kind of operand is converted first)")
+    string_to_number_rule(ctx, "C07.R10")
+    vr_ = find_method(F, VP, "visit_rounding", EXEC) if "find_method" in globals() else None
+    if vr_ is not None:
+        rep.analysed(vr_)
+        bad = None
+        for b in F.with_closures(vr_):
+            if b.kind != "closure":
+                continue
+            for bi, si, st in b.assigns():
+                pl = st["pl"]
+                if pl["p"] and pl["p"][0] == "deref" and pl["l"] >= 2 and pl["l"] <= b.argc and len(pl["p"]) == 1:
+                    bad = (b, st.get("line"))
+        rep.ob("C07.R10", "rounding-writer-only-dispatches", bad is None,
+               "" if bad is None else "the writer closure of visit_rounding assigns to the target itself (line %s) before rounding: an operand of another kind is replaced by a number instead of being a runtime error" % bad[1],
+               bad[0].loc(bad[1]) if bad else vr_.loc(), how="no `*v = ..` in the writer")
     rep.rule("C07.R4", "CENSUS restricted to the transformation code (Val::{split,join,cast,try_to_integer,round_*}, mutation_helper, "
              "visit_mutation, visit_rounding): no panicking callee precondition is left open (radix range, code point conversion)")
     em = inherent_methods(F, EXEC)
@@ -471,3 +490,28 @@ def float_to_int_rule(ctx, rule):
             if extra:
                 ok, why = False, "what is parsed is not the string itself but the result of %s: part of the number syntax is handled by hand" % extra
     rep.ob(rule, "radix-parse-is-i64-from_str_radix-of-the-string", ok, why, cast.loc(), how="i64::from_str_radix(s, radix)")
+
+
+def string_to_number_rule(ctx, rule):
+    from ..core import callee_def
+    F, rep = ctx.F, ctx.rep
+    n = 0
+    for fn in F.all_bodies(tests=False):
+        if not fn.file.startswith("src/exec/") or fn.is_derived():
+            continue
+        for bi, t in fn.calls():
+            if t["callee"].get("name") != "parse" or "str" not in (callee_def(t) or ""):
+                continue
+            n += 1
+            inst = t["callee"].get("inst") or ""
+            top = common.top_fn(F, fn)
+            ok, why = True, ""
+            if "::<f64>" not in inst:
+                ok, why = False, "%s reads a string as a number with %s: what the float parser accepts (and how it rounds huge values) is no longer what decides" % (top.path, inst)
+            else:
+                names = common.deep_call_names(F, fn, t["args"][0])
+                extra = sorted(x for x in names if x not in ("deref", "as_str", "as_ref", "borrow", "as_mut", "deref_mut", "arith_coerced", "decay", "to_key"))
+                if extra:
+                    ok, why = False, "%s prepares the text with %s before parsing it as a number: strings the language does not read as numbers become numbers (or the reverse)" % (top.path, extra)
+            rep.ob(rule, "string-as-number::%s#%d" % (top.path, sum(1 for b2, t2 in fn.calls() if b2 < bi and t2["callee"].get("name") == "parse")), ok, why, fn.loc(t["line"]), how="str::parse::<f64> of the string itself")
+    rep.floor(rule, n, 2, "str::parse calls in src/exec")
